@@ -32,6 +32,7 @@ EXTRA['eth2/beacon/common:ProcessSlots'] = ['//@   loop 1', '//@     invariant c
 EXTRA['eth2/beacon/deneb:VerifyAndNotifyNewPayload'] = [l.replace('old(newPayloadRequest.ExecutionPayload)', 'old(*newPayloadRequest.ExecutionPayload)') for l in _sfx(_vnp(True), 'deneb')]
 EXTRA['eth2/beacon/deneb:ProcessExecutionPayload'] = [
     '//@   assigns ghost(n_eng_notify), ghost(n_set_exec_header)',
+    '//@   opt rangeindex=on',
     '//@   ensures asked: err == nil ==> n_eng_notify == old(n_eng_notify) + 1',
     '//@   ensures approved: err == nil ==> (exists root RootT :: !eng_hash_err_deneb(engine, old(body.ExecutionPayload), root) && eng_hash_ok_deneb(engine, old(body.ExecutionPayload), root) && !eng_notify_err_deneb(engine, old(body.ExecutionPayload), root) && eng_notify_valid_deneb(engine, old(body.ExecutionPayload), root))',
     '//@   ensures hashes: err == nil ==> (exists hs HashesT :: {eng_vh_ok_deneb(engine, old(body.ExecutionPayload), hs)} !eng_vh_err_deneb(engine, old(body.ExecutionPayload), hs) && eng_vh_ok_deneb(engine, old(body.ExecutionPayload), hs) && len(hs) == old(len(body.BlobKZGCommitments)) && (forall i :: {hs[i]} 0 <= i && i < len(hs) ==> hs[i] == kzg_vhash(old(body.BlobKZGCommitments[i]))))',
